@@ -49,7 +49,8 @@ def run(ctx):
         ctx.broken("too few long-lived executors: %s" % cnt.get("executors"))
     ranks = sorted(k for k in cnt if k.startswith("rank_"))
     ctx.note("leader ranks observed: %s" % ", ".join("%s x%d" % (k, cnt[k]) for k in ranks))
-    if len([k for k in ranks if k.endswith("_of_4")]) < 2 and not ctx.violations:
+    varied = [n for n in (2, 3, 4) if len([k for k in ranks if k.endswith("_of_%d" % n)]) >= 2]
+    if not varied and not ctx.violations:
         ctx.broken("the leader rank never varied between seeds: hidden choice not exercised")
     tp = ctx.trace_path(go, "trace_coordination")
     # (ctx.validate_trace without TLC checkpointing: the StateDeque queue cannot be checkpointed and a long
